@@ -4,6 +4,7 @@ package main
 
 import (
 	"fmt"
+	"go/ast"
 	"go/token"
 	"go/types"
 	"strings"
@@ -128,7 +129,7 @@ func (x *Exec) finish(st *State, fr *Frame, retTo ssa.Value, res Val, deferred b
 						t := x.evalBool(env, a.Cl.Expr, a.Cl)
 						st.assume(t)
 						site, _ := x.siteAnns(st, fr, call.Call.Pos())
-						x.addObligation(st, &Obligation{Name: fmt.Sprintf("%s/cover-assume:%s#%d", x.curFunc, site, a.Cl.Ord), Kind: "cover", Goal: tFalse, Desc: "scenario assumption is consistent with the callee's contract (must be sat): " + a.Cl.Src})
+						x.addObligation(st, &Obligation{Name: fmt.Sprintf("%s/cover-assume:%s#%d", x.curFunc, site, a.Cl.Ord), Kind: "cover", Tags: a.Cl.Tags, Goal: tFalse, Desc: "scenario witness is attainable, i.e. consistent with the callee's contract (must be sat): " + a.Cl.Src})
 					}
 					if a.Kind == "set" {
 						gs, isGhost := x.ghostSort(a.Ghost)
@@ -358,7 +359,11 @@ func (x *Exec) applyContract(st *State, fr *Frame, retTo ssa.Value, c *Contract,
 	// result
 	var res Val
 	nres := sig.Results().Len()
-	if c.Pure {
+	wit := x.pendingWitness
+	x.pendingWitness = nil
+	if wit != nil && nres == 1 {
+		res = wit.val
+	} else if c.Pure {
 		res = x.pureResult(st, key, sig, args)
 	} else if nres == 1 {
 		res = st.freshVal(sig.Results().At(0).Type(), "r_"+sanitize(key))
@@ -416,6 +421,19 @@ func (x *Exec) applyContract(st *State, fr *Frame, retTo ssa.Value, c *Contract,
 		if en.Internal {
 			continue
 		}
+		if wit != nil {
+			// the witness must satisfy what the callee promises about its result; conjuncts that define the
+			// post-value of a ghost the callee modifies are definitional and stay assumptions
+			for pi, pe := range splitConj(en.Expr) {
+				pt := x.evalBool(ne, pe, en)
+				if mentionsModifiedGhost(x, pe, c) {
+					st.assume(pt)
+					continue
+				}
+				x.oblige(st, fmt.Sprintf("%s/witness:%s#%d.%d", x.curFunc, wit.site, en.Ord, pi), "witness-admissible", wit.cl.Tags, pt, pos, "scenario witness "+wit.cl.Src+" satisfies the postcondition of "+key+": "+exprStr(pe))
+			}
+			continue
+		}
 		t := x.evalBool(ne, en.Expr, en)
 		if t.S == "false" {
 			dead = true
@@ -455,6 +473,23 @@ func (x *Exec) normArg(st *State, v Val) (res Val) {
 		}
 	}
 	return v
+}
+
+func mentionsModifiedGhost(x *Exec, e ast.Expr, c *Contract) bool {
+	found := false
+	ast.Inspect(e, func(n ast.Node) bool {
+		if id, ok := n.(*ast.Ident); ok {
+			if _, isGhost := x.ghostSort(id.Name); isGhost {
+				for _, m := range c.Modifies {
+					if m == id.Name || strings.HasPrefix(m, id.Name+"[") {
+						found = true
+					}
+				}
+			}
+		}
+		return true
+	})
+	return found
 }
 
 func isDrawCall(key string) bool {
